@@ -246,6 +246,15 @@ func c12RunOnce(cfg c12Cfg, src string) c12Res {
 		s := newC12State(cfg)
 		tr, st := s.runChunk(src)
 		r.Trace, r.Status = c12Join(tr), st
+		if cs, _ := cfg.estLimits(); st == "ok" && cs >= 16 && !strings.Contains(r.Trace, "E:SO") {
+			// invariants of the program (entries "INV", name, bool): only meaningful when the call stack is not the limit
+			for _, e := range tr {
+				if strings.HasPrefix(e, "\"INV,") && !strings.HasSuffix(e, ",T") {
+					r.Status = "invariant-violated:" + strings.ReplaceAll(e, "\"", "")
+					break
+				}
+			}
+		}
 		pr, st2 := s.runChunk(c12Probe)
 		r.Probe = c12Join(pr)
 		if st == "ok" && st2 != "ok" {
@@ -279,6 +288,9 @@ type c12Family struct {
 	Src  func(n, m int) string
 	MaxN int // upper bound of n that keeps the run cheap
 }
+
+// families whose sizes are drawn mostly just below / above the registry limit of a sampled configuration
+var c12RegNear = map[string]bool{"coregover": true, "cowrapover": true, "conestover": true, "copcallover": true, "coxferover": true}
 
 const c12Rec = "local function rec(n) if n == 0 then return 0 end return 1 + rec(n-1) end\n"
 
@@ -425,6 +437,160 @@ return "end"`, n)
 	}, 20000},
 }
 
+// c12Big: Lua prelude defining t (n elements), cnt, and big() — a function that needs about n registry slots in the
+// thread that runs it and returns n.  m selects how the slots are demanded.
+func c12Big(n, m int) string {
+	var body string
+	switch m % 4 {
+	case 0:
+		body = "local x = {unpack(t)} return #x"
+	case 1:
+		body = "return (select('#', unpack(t)))"
+	case 2:
+		body = "return cnt(unpack(t))"
+	default:
+		body = fmt.Sprintf(`local s = ("x"):rep(%d) return (select('#', s:byte(1, -1)))`, n)
+	}
+	// the first entry reports whether the call stack allows the (shallow) nesting the invariants need: under a
+	// small CallStackSize it is a limit error and the comparison stops there
+	return fmt.Sprintf("local function d(k) if k == 0 then return 0 end return 1 + d(k-1) end\nemit(\"depth\", pcall(d, 10))\n"+
+		"local N = %d\nlocal t = {} for i = 1, N do t[i] = i end\nlocal function cnt(...) return select('#', ...) end\nlocal function big() %s end\n", n, body)
+}
+
+// the part every coroutine family appends: the same state keeps working (fresh coroutines, a small unpack)
+const c12CoKeeps = `
+local co2 = coroutine.create(function(x) local y = coroutine.yield(x + 1) return y * 2 end)
+emit("k1", coroutine.resume(co2, 1)) emit("k2", coroutine.resume(co2, 5)) emit("k3", coroutine.status(co2))
+emit("k4", pcall(function() return (select('#', unpack(t, 1, 3))) end))
+local w2 = coroutine.wrap(function(x) coroutine.yield(x) return "w" end)
+emit("k5", pcall(w2, 9)) emit("k6", pcall(w2)) emit("k7", pcall(w2))
+`
+
+// Families whose limit error is a REGISTRY overflow raised inside a coroutine.  Entries tagged "INV" are invariants
+// that hold whether or not the limit was hit (resume returns instead of raising, the coroutine is dead, the main
+// thread is the running one again, …); the worker turns a false one into a non-ok status.  The configuration-
+// dependent result is emitted last so that the invariants are also compared across configurations.
+var c12CoFamilies = []c12Family{
+	{"coregover", func(n, m int) string { // plain create/resume; the resumer gets (false, msg)
+		return c12Big(n, m) + `
+local co = coroutine.create(function(a) local r = big() return r + a end)
+local ok, a, b = pcall(coroutine.resume, co, 1)
+emit("INV", "resume-returns", ok)
+emit("INV", "resume-shape", (a == true and b == N + 1) or (a == false and type(b) == "string"))
+emit("INV", "dead", coroutine.status(co) == "dead")
+emit("INV", "main-running", coroutine.running() == nil)
+local ok2, a2, b2 = pcall(coroutine.resume, co)
+emit("INV", "dead-resume", ok2 == true and a2 == false and b2 == "can not resume a dead thread")
+` + c12CoKeeps + `
+emit("res", a, b)
+local co3 = coroutine.create(big)
+local ok3, a3, b3 = pcall(coroutine.resume, co3)
+emit("INV", "resume-returns-2", ok3)
+emit("INV", "dead-2", coroutine.status(co3) == "dead")
+emit("INV", "main-running-2", coroutine.running() == nil)
+emit("res2", a3, b3)
+return "end"`
+	}, 30000},
+	{"cowrapover", func(n, m int) string { // coroutine.wrap: the error is raised in the caller of the wrapper
+		return c12Big(n, m) + `
+local th
+local f = coroutine.wrap(function(a) th = coroutine.running() local r = big() return r + a end)
+local ok, a = pcall(f, 1)
+emit("INV", "wrap-shape", (ok == true and a == N + 1) or (ok == false and type(a) == "string"))
+emit("INV", "dead", th ~= nil and coroutine.status(th) == "dead")
+emit("INV", "main-running", coroutine.running() == nil)
+local ok2, a2 = pcall(f)
+emit("INV", "dead-call-raises", ok2 == false and type(a2) == "string")
+emit("k0", a2)
+` + c12CoKeeps + `
+emit("res", ok, a)
+local g = coroutine.wrap(function() local r = big() coroutine.yield(r) return "done" end)
+emit("res2", pcall(g)) emit("res3", pcall(g))
+emit("INV", "main-running-2", coroutine.running() == nil)
+return "end"`
+	}, 30000},
+	{"conestover", func(n, m int) string { // the overflow happens in a coroutine resumed by another coroutine
+		inner := `local inner = coroutine.create(function() return big() end)
+local function runinner() return pcall(coroutine.resume, inner) end
+local function innerdead() return coroutine.status(inner) == "dead" end`
+		if (m/4)%2 == 1 { // inner coroutine is wrapped: the error is raised inside the outer coroutine
+			inner = `local ith
+local innerf = coroutine.wrap(function() ith = coroutine.running() return big() end)
+local function runinner() local ok, v = pcall(innerf) return true, ok, v end
+local function innerdead() return ith ~= nil and coroutine.status(ith) == "dead" end`
+		}
+		return c12Big(n, m) + inner + `
+local oth
+local outer = coroutine.create(function()
+  oth = coroutine.running()
+  local ok, a, b = runinner()
+  local dead = innerdead()
+  local run = coroutine.running() == oth
+  local y = coroutine.yield(ok, dead, run)
+  local again = (select('#', unpack(t, 1, 3)))
+  return a, b, y, again
+end)
+local r = {pcall(coroutine.resume, outer)}
+emit("INV", "outer-resume", r[1] == true and r[2] == true)
+emit("INV", "inner-resume-returns", r[3] == true)
+emit("INV", "inner-dead", r[4] == true)
+emit("INV", "outer-still-running", r[5] == true)
+emit("INV", "outer-suspended", coroutine.status(outer) == "suspended")
+emit("INV", "main-running", coroutine.running() == nil)
+local ok2, t2, a, b, y, again = pcall(coroutine.resume, outer, 42)
+emit("INV", "outer-finish", ok2 == true and t2 == true and y == 42 and again == 3)
+emit("INV", "outer-dead", coroutine.status(outer) == "dead")
+` + c12CoKeeps + `
+emit("res", a, b)
+return "end"`
+	}, 30000},
+	{"copcallover", func(n, m int) string { // pcall inside the coroutine catches the overflow; the coroutine goes on
+		return c12Big(n, m) + `
+local co = coroutine.create(function(a)
+  local ok, v = pcall(big)
+  local y = coroutine.yield(ok, v)
+  local ok2, v2 = pcall(big)
+  return y, ok2 == ok, (select('#', unpack(t, 1, 3))), v2
+end)
+local r1 = {pcall(coroutine.resume, co, 1)}
+emit("INV", "first", r1[1] == true and r1[2] == true and type(r1[3]) == "boolean")
+emit("INV", "suspended", coroutine.status(co) == "suspended")
+local r2 = {pcall(coroutine.resume, co, 7)}
+emit("INV", "second", r2[1] == true and r2[2] == true and r2[3] == 7 and type(r2[4]) == "boolean" and r2[5] == 3)
+emit("INV", "dead", coroutine.status(co) == "dead")
+emit("INV", "main-running", coroutine.running() == nil)
+` + c12CoKeeps + `
+emit("res", r1[3], r1[4]) emit("res2", r2[4], r2[6])
+return "end"`
+	}, 30000},
+	{"coxferover", func(n, m int) string { // many values yielded / returned into a resumer whose registry is fuller
+		var sb strings.Builder
+		sb.WriteString(c12Big(n, m))
+		sb.WriteString("local co = coroutine.create(function() coroutine.yield(unpack(t)) return unpack(t) end)\n")
+		sb.WriteString("local function padded()\n local a1")
+		for i := 2; i <= 40+m%80; i++ {
+			fmt.Fprintf(&sb, ", a%d", i)
+		}
+		sb.WriteString(` = 1
+ local r = {coroutine.resume(co)}
+ if r[1] ~= true then emit("xerr", r[1], r[2]) end
+ return #r + a1 end
+emit("x1", pcall(padded))
+emit("INV", "main-running", coroutine.running() == nil)
+emit("s1", coroutine.status(co))
+emit("x2", pcall(padded))
+emit("INV", "main-running-2", coroutine.running() == nil)
+emit("s2", coroutine.status(co))
+emit("x3", pcall(padded))
+`)
+		sb.WriteString(c12CoKeeps)
+		sb.WriteString(`return "end"`)
+		return sb.String()
+	}, 30000},
+}
+
+func init() { c12Families = append(c12Families, c12CoFamilies...) }
+
 // ---------- configuration grid ----------
 
 var c12CS = []int{1, 2, 7, 8, 9, 16, 256}
@@ -502,6 +668,9 @@ func (c c12Cfg) estLimits() (cs, reg int) {
 // genC12ProgCase: ops[0] = ["prog", family, n, m], ops[1..] = ["cfg", cs, min, rs, rmax, step, ctx]
 func genC12ProgCase(r *Rng, ncfg int) []Op {
 	fam := r.Intn(len(c12Families))
+	if r.Chance(25) { // registry overflows inside coroutines get a fixed share of the cases
+		fam = len(c12Families) - len(c12CoFamilies) + r.Intn(len(c12CoFamilies))
+	}
 	f := c12Families[fam]
 	var cfgs []c12Cfg
 	cfgs = append(cfgs, c12Ref)
@@ -555,6 +724,13 @@ func genC12ProgCase(r *Rng, ncfg int) []Op {
 		n = r.Range(0, 40)
 	default:
 		n = Pick(r, []int{0, 1, 5, 6, 7, 8, 9, 13, 14, 15, 16, 17, 100, 120, 126, 127, 128, 129, 130, 250, 254, 255, 256, 257, 260, 510, 1000, 5100, 5118, 5119, 5120, 5121, 5130, 20470, 20480, 20490})
+	}
+	if c12RegNear[f.Name] && r.Chance(70) {
+		// the coroutine's own registry is almost empty: the overflow needs about regLimit values
+		n = regl + r.Range(-50, 12)
+		if r.Chance(25) {
+			n = regl + r.Range(-6, 4)
+		}
 	}
 	if n < 0 {
 		n = 0
